@@ -106,6 +106,17 @@ CHECKS["C09"] = dict(
     note=_XH_NOTE + " Chain/loop weights are distinct primes in most conditions (a swap is observable) and symbolic in dedicated 1x1 conditions.",
     ref="DESIGN.md section 6 C09")
 
+CHECKS["C19"] = dict(
+    technique="bounded symbolic execution of the summary / plotting helpers with matplotlib, seaborn and logomaker drawing calls replaced by call recorders (CrossHair + z3): the DATA handed to the drawing primitives and the returned values are asserted",
+    text="seqs_to_regex (no alignment) equals the product of per-position observed-residue sets with '?' for gapped columns; seqs_to_consensus picks a most frequent residue per kept position; seqlogos' count matrix; rankfrequency's step() receives the descending (normalised, scaled) values against their 0-based (normalised, scaled) ranks with missing values dropped; label colour maps: equal labels equal colours, rarer than min_count black, hls distinct for every shuffle outcome; density_scatter(discrete) draws each distinct point once with its multiplicity, densest last; similarity_clustermap returns linkage/fcluster of the summed chain distances and hands alpha / beta square matrices as lower / upper data with the shared linkage. Rendered-figure observables (triangle layout, dendrogram order) are outside the claim.",
+    note=_XH_NOTE + " Drawing libraries are recorders; logomaker.alignment_to_matrix and seaborn.hls_palette are contract models.",
+    ref="DESIGN.md section 6 C19")
+CHECKS["C20"] = dict(
+    technique="one inductive step per public function from an arbitrary state, decided by bounded symbolic execution (CrossHair + z3): module-level state havocked, other calls (including a raising one) interposed, every mutable default of every pyrepseq function audited, caller containers compared leaf-by-leaf by identity, results before/after compared as z3 terms; randomised calls re-run with the recorded generator outcomes",
+    text="For 25 call scenarios covering search, statistics, metrics, io, clustering and plotting helpers: the call leaves its arguments and option dictionaries untouched, leaves all 9 mutable default arguments in the package at their import-time values, and returns the same value whether it runs first or after havocked module state and interposed calls; with the same generator outcomes a randomised call returns the same value. By induction on history length every history leaves the observable state equal to the initial one.",
+    note=_XH_NOTE + " Third-party global state (matplotlib figure stack, pandas options) is outside the claim.",
+    ref="DESIGN.md section 6 C20")
+
 NOT_APPLICABLE = {}
 
 def main():
